@@ -53,6 +53,9 @@ SRC = {
     "K2": "def ast2ast(a: bool, b: bool) -> bool:\n    return a ^ b\n",        # a function the library itself calls
     "K3": "def flatten(x: Qint[2]) -> bool:\n    return x[0]\n",
     "O": "def oracle(x: Qint[2]) -> bool:\n    return x == 1\n",              # the default name used by oraclize
+    "I": "def fi(a: bool, b: bool) -> bool:\n    c = a\n    if b:\n        c = not a\n    return c\n",        # generated names (_iftargN) when compiled with fastOptimizer
+    "I2": "def fj(x: Qint[2], b: bool) -> Qint[2]:\n    c = x\n    if b:\n        c = x + 1\n    else:\n        c = x ^ 1\n    return c\n",
+    "S": "def swap(a: bool, b: bool) -> bool:\n    return a ^ b\n",           # the name of a QuantumCircuit attribute
     "T": "def ft(x: Tuple[bool, bool]) -> bool:\n    return x[0] and x[1]\n",
 }
 CALLER = "def caller(a: Qint[2]) -> Qint[2]:\n    return fv(a) ^ 1\n"
@@ -64,7 +67,7 @@ def py_callable():
     return ns["fcall"]
 
 
-HEAVY = ("export:A:qiskit", "export:A:cirq", "gate:Q:qiskit")
+HEAVY = ("export:A:qiskit", "export:A:cirq", "gate:Q:qiskit", "gate:S:qiskit")
 
 
 def menu(heavy=True):
@@ -98,6 +101,9 @@ def _menu():
     ops.append(("truth:A", ["A"], "observe"))
     ops.append(("truth:V", ["V"], "observe"))
     ops.append(("gate:Q:qiskit", ["Q"], "observe"))
+    ops.append(("gate:S:qiskit", ["S"], "observe"))
+    ops.append(("export:S:qasm", ["S"], "observe"))
+    ops.append(("export:I:qasm", ["I"], "observe"))
     ops.append(("encode:V", ["V"], "observe"))
     return ops
 
@@ -218,7 +224,11 @@ def perform(op, slots):
     k = parts[0]
     if k == "compile":
         p = parts[1]
-        o = qlassf(SRC[p])
+        if p in ("I", "I2"):
+            from qlasskit.boolopt import fastOptimizer
+            o = qlassf(SRC[p], bool_optimizer=fastOptimizer)
+        else:
+            o = qlassf(SRC[p])
         return p, o
     if k == "bind":
         return "P(%s)" % parts[2], slots["P"].bind(p=int(parts[2]))
@@ -355,7 +365,7 @@ def shards(tier):
     ops = menu(False)
     out = []
     for op1, need1, kind1 in ops:
-        if not need1 and (tier == "thorough" or op1 in ("compile:A", "compile:Q")):
+        if not need1 and (tier == "thorough" or op1 in ("compile:A", "compile:Q", "compile:S")):
             out.append({"first": op1, "second": None, "count_first": False, "depth": 2 if tier == "quick" else 3, "heavy": True})
     for op1, need1, kind1 in ops:
         if need1:
@@ -365,7 +375,7 @@ def shards(tier):
         # quick: every history of length <= 2, and length 3 below the operations that touch names, oracles and callees;
         # thorough: every history of length <= 4
         if tier == "quick":
-            depth = 3 if op1 in ("compile:K2", "compile:O", "compile:V") else 2
+            depth = 3 if op1 in ("compile:K2", "compile:O", "compile:V", "compile:I") else 2
         else:
             depth = 4
         for i, op2 in enumerate(seconds):
